@@ -726,13 +726,32 @@ func clientEncodingValidated(c *core.Ctx) {
 					for _, u := range headerReadsOfVar(p, info, fd, ret, call.Args[0]) {
 						validators = append(validators, validator{fd, u.cst})
 					}
-					// the rejection must be coded and list the supported names
+					// the rejection must be coded and list the supported names - unless the response is a non-200
+					// one, which is reported by its HTTP status (its body cannot be read at all)
 					good := false
 					if len(ret.Results) == 1 {
-						if ec, ok := astx.Unparen(ret.Results[0]).(*ast.CallExpr); ok {
+						res := astx.Unparen(ret.Results[0])
+						// a variable: what was assigned to it last before this return (by the statement order of the
+						// block, e.g. `err = errorf(…); …; return err` left behind by an inlined helper)
+						if obj := astx.ObjOf(info, res); obj != nil {
+							if best := assignedBefore(info, fd.Body, ret, obj); best != nil {
+								res = astx.Unparen(best)
+							}
+						}
+						if ec, ok := res.(*ast.CallExpr); ok {
 							for _, inner := range astx.Calls(ec) {
 								if isMethodNamed(info, inner, "CommaSeparatedNames") {
 									good = true
+								}
+								if tf := astx.CalleeFunc(info, inner); tf != nil && (tf.Name() == "connectHTTPToCode" || tf.Name() == "grpcHTTPToCode") {
+									for _, sf := range conj {
+										l, op, r, isCmp := astx.CompareOp(sf.Expr)
+										if isCmp && astx.IsFieldNamed(info, l, "StatusCode") {
+											if v, isC := astx.ConstInt(info, r); isC && v == 200 && (op == token.NEQ) == sf.Pol {
+												good = true
+											}
+										}
+									}
 								}
 							}
 						}
